@@ -362,6 +362,33 @@ pub fn scope_bound_uris(m: &Model, e: Lid) -> Vec<String> {
 /// a nested element, repair that element; or the same with a subtree moved away in between
 pub fn gen_motif(m: &Model, rng: &mut Rng, home: &[Lid]) -> Option<Vec<Op>> {
     let p = Picker::new(m, home, 50);
+    if rng.pct(20) {
+        // the xml prefix is bound (the API and the parser allow it) to a namespace that names below
+        // really use: those names are then written xml:..., attributes called id / space among them;
+        // a child may declare the built-in pair again and use it
+        let e = p.of(rng, |l| m.k(l) == K::Elem)?;
+        let mut used: Vec<String> = vec![];
+        for l in m.subtree(e) {
+            match &m.n(l).kind {
+                crate::model::Kind::Elem(n) | crate::model::Kind::Attr(n, _) if !n.uri.is_empty() && n.uri != absdoc::XML_NS && !used.contains(&n.uri) => used.push(n.uri.clone()),
+                _ => {}
+            }
+        }
+        let uri = match rng.pick_opt(&used) {
+            Some(u) => u.clone(),
+            None => rng.pick_str(&URIS).to_string(),
+        };
+        let mut ops = vec![Op::NsInsert { e, prefix: "xml".into(), uri }];
+        let kids: Vec<Lid> = m.n(e).kids.iter().copied().filter(|k| m.k(*k) == K::Elem).collect();
+        if let Some(c) = rng.pick_opt(&kids) {
+            if rng.pct(60) {
+                ops.push(Op::NsInsert { e: *c, prefix: "xml".into(), uri: absdoc::XML_NS.into() });
+                ops.push(Op::SetAttribute { e: *c, name: Nm::new(if rng.pct(50) { "space" } else { "lang" }, absdoc::XML_NS), value: "preserve".into() });
+            }
+        }
+        ops.push(Op::CreateMissingPrefixes { n: m.root_of(e) });
+        return Some(ops);
+    }
     if rng.pct(40) {
         // a deep, narrow tree is around: something in a namespace that only the element above the
         // deep part declares is added after that element, then the whole tree is repaired
